@@ -371,7 +371,9 @@ def check_case(case):
     classes = set()
     for r in runs:
         for _ in range(repeat):
-            if problems and (repeat > 1 or any(p[0] not in KNOWN for p in problems)):
+            ek = case.get("expect_key")
+            if problems and ((repeat > 1 and (ek is None or any(p[0] == ek for p in problems))) or
+                             (repeat == 1 and any(p[0] not in KNOWN for p in problems))):
                 break  # already decided
             res = None
             for attempt in range(3):
@@ -388,19 +390,21 @@ def check_case(case):
             completed += 1
             vkeys = ("C52.verdict.step", "C52.verdict.file", "C52.exit_status")
             if any(p[0] in vkeys for p in res["problems"]):
-                # deterministic or schedule dependent?  the same invocation is tried again (twice at most)
+                # deterministic or schedule dependent?  the same invocation is tried once more, then the same tree is run
+            # with --jobs=1 (twice at most): only what is wrong every time is reported under the generic keys
                 # (a wrong step verdict counts as reproduced only if the same step of the same file is wrong again)
                 def relevant(m):  # an exit status that follows from wrong step verdicts is not a fact of its own
                     steps = set(x for x in m if x[0] not in ("exit", "exitlog"))
                     return steps or set(m)
                 common = relevant(res["mism"])
-                for _again in range(2):
-                    res2 = one_run(files, r)
+                seq = dict(r, jobs=1, cpus=None, sync=False)  # the same tree and discard rule, sequentially
+                for _again in range(3):
+                    res2 = one_run(files, seq if _again else r)
                     if res2["status"] != "exit":
                         continue
                     common &= relevant(res2["mism"])
                     if not common:
-                        res["problems"] = [((K_STATUS, "not reproduced when the same invocation is repeated: " + p[1])
+                        res["problems"] = [((K_STATUS, "not reproduced when the invocation is repeated / run with --jobs=1: " + p[1])
                                             if p[0] in vkeys else p) for p in res["problems"]]
                         if not any(p[0] in vkeys for p in res2["problems"]):
                             res["verdicts"] = res2["verdicts"]
@@ -424,6 +428,8 @@ def check_case(case):
     classes |= {"discard.%s" % r.get("discard") for r in runs}
     if any(c["kind"] == "shall_fail" and c["code"] == 0 for f in files for c in f["cmds"]):
         classes.add("shall_fail_exit0")
+    if case.get("expect_key"):  # replay of a saved failure: only the same sub-claim counts as a reproduction
+        problems = [p for p in problems if p[0] == case["expect_key"]]
     if problems:
         unknown = [p for p in problems if p[0] not in KNOWN]
         key, msg = (unknown or problems)[0]
@@ -431,6 +437,7 @@ def check_case(case):
             # schedules are sampled: the saved case re-samples every invocation up to 6 times (and stops at the
             # first problem) so that a schedule dependent failure reproduces when it is replayed
             case["repeat"] = 6
+            case["expect_key"] = key
         return Result(False, key, msg + "\ncommand lines: %s\n%s" % ([launch_desc(r) for r in runs], describe(files)))
     return Result(True, nontrivial=nontrivial, classes=sorted(classes),
                   sample={"files": describe(files), "runs": runs})
